@@ -4,6 +4,7 @@ import (
 	"bytes"
 	"crypto/ed25519"
 	"fmt"
+	"os"
 	"strings"
 
 	biscuit "github.com/biscuit-auth/biscuit-go/v2"
@@ -126,6 +127,12 @@ func (f *family) add(t *famToken) int {
 	t.Bytes = bs
 	t.C, err = containerOfBytes(bs)
 	if err != nil {
+		if currentResult != nil {
+			currentResult.Violate("own-token-undecodable:"+t.Op, "a token produced by "+t.Op+" serializes to bytes that are not a well-formed token: "+err.Error(), map[string]interface{}{"history_op": t.Op, "serialized": fmt.Sprintf("%x", bs)})
+			currentResult.Write(currentOutDir)
+			fmt.Printf("\nharness: stopped at the first undecodable own token, %d oracle violations\n", len(currentResult.Violations))
+			os.Exit(0)
+		}
 		fatal("decode own token: %v", err)
 	}
 	f.toks = append(f.toks, t)
@@ -203,7 +210,7 @@ func (f *family) seal(rng *RNG, pi int) (int, error) {
 
 func (f *family) reload(pi int) (int, error) {
 	p := f.toks[pi]
-	tok, err := biscuit.Unmarshal(p.Bytes)
+	tok, err := unmarshalOwned(p.Bytes)
 	if err != nil {
 		return -1, err
 	}
@@ -510,7 +517,7 @@ func verifyGo(bs []byte, ks biscuit.PublickKeyByIDProjection) (class string, tok
 			class = "panic"
 		}
 	}()
-	t, err := biscuit.Unmarshal(bs)
+	t, err := unmarshalOwned(bs)
 	if err != nil {
 		c := errClass(err)
 		if c == "EOther" {
@@ -572,6 +579,30 @@ func runC01(res *Result, rng *RNG, tier string, outDir string) {
 			// the token object itself, after all later derivations of the family
 			if _, err := t.Tok.AuthorizerFor(ks); err != nil {
 				res.Violate("library-token-rejected-later:"+t.Op, fmt.Sprintf("a token produced by %s no longer verifies after later derivations from its family: %v", t.Op, err), rep)
+			}
+			// a caller's key buffer is the caller's: the same token object is verified under the genuine key held in
+			// a buffer, then under ANOTHER key written into that same buffer (key rotation), then under the genuine
+			// key again; acceptance must follow the key bytes presented at each call, not an earlier call
+			{
+				kb := append([]byte{}, f.pub...)
+				other := ed25519.NewKeyFromSeed(r.Bytes(32)).Public().(ed25519.PublicKey)
+				obj := t.Tok
+				if fresh, err := unmarshalOwned(t.Bytes); err == nil && ti%2 == 0 {
+					obj = fresh // an object nobody has verified yet: its very first verification uses the reusable buffer
+				}
+				_, e1 := obj.AuthorizerFor(biscuit.WithSingularRootPublicKey(kb))
+				copy(kb, other)
+				_, e2 := obj.AuthorizerFor(biscuit.WithSingularRootPublicKey(kb))
+				copy(kb, f.pub)
+				_, e3 := obj.AuthorizerFor(biscuit.WithSingularRootPublicKey(kb))
+				rep2 := map[string]interface{}{"token": fmt.Sprintf("%x", t.Bytes), "history_op": t.Op, "root_public_key": fmt.Sprintf("%x", f.pub), "other_key": fmt.Sprintf("%x", other),
+					"genuine_key_first": fmt.Sprint(e1), "other_key_in_same_buffer": fmt.Sprint(e2), "genuine_key_again": fmt.Sprint(e3)}
+				if e2 == nil {
+					res.Violate("forgery-accepted:key-buffer-reused", "a token verified once under its root key is accepted again under a key that never signed it, presented in the same caller buffer", rep2)
+				}
+				if e1 != nil || e3 != nil {
+					res.Violate("library-token-rejected:key-buffer-reused", "a library-built token is rejected under its root key around a verification under another key", rep2)
+				}
 			}
 			f.addVerifyOracle(f.pub, t.C)
 			sh.vc = append(sh.vc, fmt.Sprintf("{| vc_keys := KSingular %s; vc_cont := %s; vc_obs := %s |}", coqBytes(f.pub), t.C.coq(), classObs(class)))
@@ -970,7 +1001,7 @@ func c09CustomBaseTwin(res *Result, f *family, r *RNG) {
 	variants := map[string]*biscuit.Biscuit{"sealed": sealed}
 	if bs, err := sealed.Serialize(); err == nil {
 		t3 := datalog.SymbolTable(append([]string{}, base...))
-		if rl, err := (&biscuit.Unmarshaler{Symbols: &t3}).Unmarshal(bs); err == nil {
+		if rl, err := unmarshalerOwned(&biscuit.Unmarshaler{Symbols: &t3}, bs); err == nil {
 			variants["sealed+reloaded"] = rl
 		} else {
 			res.Violate("sealed-reload-failed", "a sealed token over a custom base table does not unmarshal with that table: "+err.Error(), map[string]interface{}{"base": base})
